@@ -7,8 +7,8 @@ s = open(p).read()
 def block(name, text):
     global s
     b, e = '<!-- %s:BEGIN -->' % name, '<!-- %s:END -->' % name
-    if '%%' + name + '%%' in s:
-        s = s.replace('%%' + name + '%%', b + '\n' + e)
+    if '%' + name + '%' in s:
+        s = s.replace('%' + name + '%', b + '\n' + e)
     i, j = s.index(b), s.index(e)
     s = s[:i] + b + '\n' + text + '\n' + s[j:]
 
